@@ -381,3 +381,36 @@ POWTERM_WITNESSES = [
     (["B"], ["pow", ["mul", ["add", ["num", 0], ["const", "1", "0"]], ["pow", ["op", 0, 0], 2]], 2]),  # ((N_a+1) a^2)^2
     (["L"], ["pow", ["mul", ["num", 0], ["op", 0, 0]], 2]),                                   # (N_m m)^2
 ]
+
+
+def _o(i, dag=0):
+    return ["op", i, dag]
+
+
+def _chain(*fs):
+    t = fs[0]
+    for f in fs[1:]:
+        t = ["mul", t, f]
+    return t
+
+
+# spin modes are stored between the ladders and the fermions; their powers must NOT enter the fermionic sign count.
+# (modes, left factor, right factor): the product left*right exercises every branch of the fermion part of _multiply_op
+# (nothing*annihilation, creation*annihilation, nothing*creation, annihilation*creation) with a spin power +1 / -1 present
+SIGN_WITNESSES = [
+    (["S", "F"], _o(0), _o(1)),                                   # sigma_- * f
+    (["S", "F"], _o(1), _o(0)),                                   # f * sigma_-
+    (["S", "F"], _o(0), _o(1, 1)),                                # sigma_- * f†
+    (["S", "F"], _chain(_o(0), _o(1)), _o(1, 1)),                 # (sigma_- f) * f†
+    (["S", "F"], _chain(_o(0), _o(1, 1)), _o(1)),                 # (sigma_- f†) * f
+    (["S", "F"], _chain(_o(0, 1), _o(1, 1)), _o(1)),              # (sigma_+ f†) * f
+    (["S", "F", "F"], _chain(_o(0, 1), _o(0)), _chain(_o(1, 1), _o(2))),          # (sigma_+ sigma_-) * (f† g)
+    (["S", "F", "F"], _chain(_o(0), _o(2)), _chain(_o(1, 1), _o(2, 1))),          # (sigma_- g) * (f† g†)
+    (["S", "F", "F"], _chain(_o(0), _o(1, 1)), _chain(_o(2), _o(1))),             # (sigma_- f†) * (g f)
+    (["S", "F", "F"], _chain(_o(1), _o(0)), _chain(_o(2, 1), _o(1, 1))),          # (f sigma_-) * (g† f†)
+    (["S", "S", "F", "F"], _chain(_o(0), _o(1)), _chain(_o(2), _o(3))),           # (s t) * (f g)
+    (["S", "S", "F", "F"], _chain(_o(0), _o(1, 1), _o(2)), _chain(_o(3, 1), _o(2, 1))),   # (s t† f) * (g† f†)
+    (["S", "S", "F", "F"], _chain(_o(2, 1), _o(0)), _chain(_o(1), _o(3), _o(2))),         # (f† s) * (t g f)
+    (["B", "S", "F"], _chain(_o(0, 1), _o(1)), _chain(_o(2), _o(0))),             # (a† sigma_-) * (f a)
+    (["L", "S", "F", "F"], _chain(_o(1), _o(0)), _chain(_o(3, 1), _o(2))),        # (sigma_- l) * (g† f)
+]
